@@ -8,6 +8,8 @@ use std::marker::PhantomData;
 
 #[path = "c08/textlevel.rs"]
 mod textlevel;
+#[path = "c08/exprcore.rs"]
+mod exprcore;
 
 pub struct MockEnv<T>(PhantomData<T>);
 impl<T: AsRef<str>> DisplayEnv for MockEnv<T> {
@@ -283,6 +285,7 @@ fn main() {
                 Ok(Err(e)) => println!("=> error {:?}", e),
                 Err(p) => println!("=> PANIC {}", p),
             }
+            exprcore::replay_text(text);
         }
         if let Some(text) = case["restyled"].as_str() {
             println!("replaying restyled text:\n{}", text);
@@ -328,5 +331,8 @@ fn main() {
     // text level: chains through the real grammar + layout + Reparser, and the style round trip
     textlevel::chains(&mut out, &mut rng, if args.thorough() { 20000 } else { 3000 });
     textlevel::roundtrip(&mut out, &mut rng, if args.thorough() { 3000 } else { 300 });
+    // first clause, expression core: print (explicit style, redundant parentheses, trivia) ->
+    // real parser, against the model printer + layout model + grammar model
+    exprcore::run(&mut out, &mut rng, if args.thorough() { 30000 } else { 3000 });
     out.finish();
 }
